@@ -38,6 +38,7 @@ class Ctx:
     def __init__(self, prefix, timeout_ms=30000):
         self.frames = [Frame(prefix)]
         self.solver = z3.Solver()
+        self.timeout_ms = timeout_ms
         self.solver.set('timeout', timeout_ms)
         self.n_solver = 0
         self.solver_s = 0.0
@@ -80,6 +81,11 @@ def _check(extra=None):
         ctx.solver.push()
         ctx.solver.add(extra)
     r = ctx.solver.check()
+    if r == z3.unknown:
+        # one retry with a four times larger budget before the query counts as undecided (verdicts must not flip under load)
+        ctx.solver.set('timeout', ctx.timeout_ms * 4)
+        r = ctx.solver.check()
+        ctx.solver.set('timeout', ctx.timeout_ms)
     if extra is not None:
         ctx.solver.pop()
     dt = time.time() - t0
@@ -138,6 +144,10 @@ def valid(e):
     ctx.solver.add(z3.Not(e))
     t0 = time.time()
     r = ctx.solver.check()
+    if r == z3.unknown:
+        ctx.solver.set('timeout', ctx.timeout_ms * 4)
+        r = ctx.solver.check()
+        ctx.solver.set('timeout', ctx.timeout_ms)
     STATS['solver_calls'] += 1
     STATS['solver_s'] += time.time() - t0
     m = ctx.solver.model() if r == z3.sat else None
